@@ -233,9 +233,12 @@ def shrink_case(ops, fam, workdir, kind, needle=None):
     """ddmin over op lines keeping the failure kind ('oracle' or 'mismatch')."""
     counter = [0]
 
+    t_start = time.time()
+
     def test(sub):
         counter[0] += 1
-        if counter[0] > 400:
+        # bounded: a hanging op costs the watchdog limit per attempt
+        if counter[0] > 400 or time.time() - t_start > 150:
             return False
         rec = quick_eval(sub, workdir, "shrink")
         f, m = compare(rec, fam)
